@@ -40,8 +40,12 @@ def run_g(ctx, units):
             ctx.undecided.append(str(e)[:600])
             ev["units"].append({"unit": unit, "undecided": str(e)[:300]})
             continue
-        funcs = r["functions"]
-        expected = base.get(unit, {}).get("functions", [])
+        funcs = dict(r["functions"])
+        for f, why in r.get("undecided_functions", {}).items():
+            funcs.pop(f, None)
+            if relevant is None or f in relevant:
+                ctx.undecided.append("G:%s:%s undecided: %s" % (unit, f, why[:300]))
+        expected = [f for f in base.get(unit, {}).get("functions", []) if f not in r.get("undecided_functions", {})]
         missing = [f for f in expected if f not in funcs]
         if missing:
             raise Undecided("unit %s: obligations %s known from the baseline were not generated (vacuity guard)" % (unit, missing))
@@ -49,7 +53,7 @@ def run_g(ctx, units):
             raise Undecided("unit %s generated zero obligations" % unit)
         rel = [f for f in funcs if relevant is None or f in relevant]
         if relevant:
-            lost = [f for f in relevant if f not in funcs]
+            lost = [f for f in relevant if f not in funcs and f not in r.get("undecided_functions", {})]
             if lost:
                 raise Undecided("unit %s: contracted functions %s produced no obligation" % (unit, lost))
         ev["obligations"] += len(rel)
